@@ -4,6 +4,7 @@ import fabric_corr
 
 def explore(run, lean):
     fabric_corr.explore(run, "C08", 200 if run.tier == "quick" else 4000)
+    fabric_corr.explore_fe_order(run, 200 if run.tier == "quick" else 5000)
     run.extra["rule"] = ("scenarios: 1-4 subscriber queues (plain deques and active-object LockingDeques, several of them empty = equal "
                          "contents), one or two client threads issuing subscribe/publish/start/stop/clear/is_alive (start/stop/clear "
                          "from one thread only); half of them structured (subscribe*, publish* before the first start = maximal "
